@@ -33,6 +33,7 @@ func c12(c *Ctx) {
 	c12TypeURL(c)
 	c12Optional(c)
 	c12ConstFields(c)
+	c12Canonical(c)
 }
 
 // ---------------------------------------------------------------- inverse
